@@ -76,6 +76,7 @@ def gen_panel_def(rng, allow_none_model=True, mmax=5):
          'stack': rng.choice(STACKS), 'plyt': 1.25e-4, 'per_ply': rng.random() < 0.2,
          # a per-ply table may contain a ply of zero thickness (a dropped ply kept in the table): it contributes nothing
          'zero_ply': rng.choice([None, None, rng.randrange(8)]), 'forces_np': rng.random() < 0.3,
+         'too_slow_TOL': rng.choice([None, None, 0.2, 0.5, 0.9, 0.99]),
          'offset': rng.choice([0.0, 0.0, 2e-4, -1e-4]),
          'Nxx': rng.choice([None, -1.0, -50.0]), 'Nyy': rng.choice([None, None, -3.0]), 'Nxy': rng.choice([None, None, 2.0]),
          'Nxx_cte': rng.choice([None, None, -5.0]),
@@ -113,7 +114,9 @@ def gen_ops(rng, menu, nmin=5, nmax=30, heavy=()):
               'si': rng.randrange(3), 'region': rng.choice(['flange', 'base']), 'pidx': rng.randrange(4),
               'attr': rng.choice(['Nxx', 'Nyy', 'Nxy', 'mu', 'a', 'b', 'offset', 'flag', 'plyt', 'Nxx_cte']), 'val': rng.uniform(0.3, 2.5),
               # shells: full-size (prescribed amplitudes included) or reduced amplitude vector, with or without a load factor
-              'full': rng.random() < 0.4, 'winc': rng.random() < 0.5}
+              'full': rng.random() < 0.4, 'winc': rng.random() < 0.5,
+              # analyses with the progress log switched on (silent=False) instead of off
+              'loud': rng.random() < 0.4}
         if name == 'save_load' and rng.random() < 0.35:
             # disk fault while the object is being saved: no space at open(), or a write that fails after some bytes
             op['fault'] = {'seam': 'disk', 'kind': rng.choice(['enospc_at_open', 'short_write']), 'bytes': rng.choice([0, 17, 300, 4096])}
@@ -206,6 +209,7 @@ def generate(seed, batch):
                         'betadeg': rng.choice([0.0, 0.0, rng.uniform(0.1, 2.0)])}
         # axial load given as a caller-supplied distribution table instead of the total force
         scen['defn']['Nxxtop'] = rng.uniform(5.0, 80.0) if (scen['defn']['Fc'] is None and rng.random() < 0.5) else None
+        scen['defn']['too_slow_TOL'] = rng.choice([None, None, 0.2, 0.5, 0.9, 0.99])
         if scen['defn']['method'] == 'simps2d':
             scen['defn']['nx'] |= 1
             scen['defn']['nt'] |= 1
@@ -333,6 +337,8 @@ def apply_panel_def(p, d, inputs=None):
     p.analysis.initialInc = 0.5
     p.analysis.minInc = 0.05
     p.analysis.maxNumIter = 8
+    if d.get('too_slow_TOL'):
+        p.analysis.too_slow_TOL = d['too_slow_TOL']
     return p
 
 
@@ -533,6 +539,8 @@ def build(kind, d, inputs=None):
         cc.analysis.initialInc = 0.5
         cc.analysis.minInc = 0.05
         cc.analysis.maxNumIter = 8
+        if d.get('too_slow_TOL'):
+            cc.analysis.too_slow_TOL = d['too_slow_TOL']
         return cc
     raise HarnessError(kind)
 
@@ -763,10 +771,10 @@ def run_panel_op(p, op, env, d):
         p.freq(atype=op['atype'], silent=True, sparse_solver=(name == 'freq'))
         return (p.eigvals, p.eigvecs)
     if name == 'static':
-        cs = p.static(silent=True)
+        cs = p.static(silent=not op.get('loud'))
         return (p.analysis.increments, cs)
     if name == 'static_nl':
-        cs = p.static(NLgeom=True, silent=True)
+        cs = p.static(NLgeom=True, silent=not op.get('loud'))
         return (p.analysis.increments, cs)
     if name in ('uvw', 'strain', 'stress'):
         xs, ys, kw = env.pts(op['pi'], d['a'], d['b'])
@@ -976,10 +984,10 @@ def run_shell_op(cc, op, env, d):
         cc.eigen()
         return (cc.eigvals, cc.eigvecs)
     if name == 'static':
-        cs = cc.static(silent=True)
+        cs = cc.static(silent=not op.get('loud'))
         return (cc.increments, cs)
     if name == 'static_nl':
-        cs = cc.static(NLgeom=True, silent=True)
+        cs = cc.static(NLgeom=True, silent=not op.get('loud'))
         return (cc.increments, cs)
     if name in ('uvw', 'strain', 'stress'):
         spec = pools['pts'][op['pi']]
@@ -1359,7 +1367,8 @@ def execute(scen):
                 continue
             key = op_key(kind, op)
             if key not in refs:
-                refs[key] = outcome_of(kind, build(kind, d), op, Env(scen, None), d, seam, key)
+                # (the reference is always computed with the log switched off)
+                refs[key] = outcome_of(kind, build(kind, d), dict(op, loud=False), Env(scen, None), d, seam, key)
                 if refs[key][0] == 'raises':
                     bump(res['exceptions'], 'fresh_%s_%s' % (op['op'], refs[key][1]))
         subject = build(kind, d, def_inputs)
@@ -1473,7 +1482,7 @@ def execute(scen):
             if key not in refs:
                 fresh = build(kind, d)
                 env_r = Env(scen, None)
-                refs[key] = outcome_of(kind, fresh, op, env_r, d, seam, key)
+                refs[key] = outcome_of(kind, fresh, dict(op, loud=False), env_r, d, seam, key)
                 if refs[key][0] == 'raises':
                     bump(res['exceptions'], 'fresh_%s_%s' % (name, refs[key][1]))
                 if not prev_ops:
@@ -1506,6 +1515,19 @@ def execute(scen):
                         path_flip = inc_s != inc_r
                     except Exception:
                         path_flip = False
+                if path_flip:
+                    # ... provided it IS the thread count: a fresh object with the subject's thread count must follow the
+                    # subject's history; anything else is a dependence on the call history after all
+                    fresh_t = build(kind, d)
+                    fresh_t.ni_num_cores = subject.ni_num_cores
+                    out_t = outcome_of(kind, fresh_t, op, Env(scen, None), d, seam, key)
+                    same_t = out_t[0] == 'value' and compare(out[1], out_t[1], 1e-9)[1]
+                    if not same_t:
+                        v = Violation('H1-same-outcome', dict(ctx, where=str(where)[:300],
+                                                              why='value differs from the value on a fresh object (also from a fresh object '
+                                                                  'with the same number of integration threads)'), step=idx)
+                        v.known_id = known_id_for(kind, key, out, ref, prev_ops, d)
+                        raise v
                 if path_flip:
                     bump(res['probes'], 'nl_increment_history_differs_between_thread_counts(no verdict)')
                     for po in set(prev_ops):
